@@ -217,16 +217,7 @@ def _hard_step(spec, info, ham, rhs, y, h, rec, feats, J, n):
     if abs(dT) < abs(h):
         rec.bump("hard_steps_shortened")
     rec.nontrivial = True
-    # (a) symmetric scheme: the step of -dT from the end point returns
-    dT2, y2 = any_step(y1, -dT)
-    if dT2 is not None and dT2 == -dT:
-        rec.bump("hard_reverse_probes")
-        err = float(np.max(np.abs(y2 - y)))
-        unit = 1e3 * tol_eff * (1 + float(np.max(np.abs(y1))))
-        rec.worst("hard_reverse_error_over_unit", err / unit)
-        if err > unit:
-            rec.violate("time_reversibility", "accepted_long_step_then_minus_step_does_not_return", feats, err=err, unit=unit, dT=dT)
-    # (b) the Jacobian of the map of size dT preserves J (neighbours advanced by another step size are not the same map: skipped)
+    # the Jacobian of the map of size dT by central differences (neighbours advanced by another step size are not the same map: skipped)
     delta = 1e-4
     Mx = np.zeros((n, n))
     ok = True
@@ -239,13 +230,30 @@ def _hard_step(spec, info, ham, rhs, y, h, rec, feats, J, n):
             ok = False
             break
         Mx[:, j] = (yp - ym) / (2 * delta)
-    if ok:
-        rec.bump("hard_jtest_probes")
-        dfc = _jdefect(Mx.astype(np.longdouble), J.astype(np.longdouble))
-        thr = 3e-6 * (1 + float(np.max(np.abs(Mx))) ** 2) + 1e2 * tol_eff / delta
-        rec.worst("hard_jtest_defect_over_threshold", dfc / thr)
-        if dfc > thr:
-            rec.violate("symplectic_form", "jacobian_of_an_accepted_long_step_does_not_preserve_J", feats, defect=dfc, threshold=thr, dT=dT)
+    if not ok:
+        rec.bump("hard_steps_neighbours_took_other_steps")
+        return rec.out()
+    mmax = float(np.max(np.abs(Mx)))
+    if not np.isfinite(mmax) or mmax > 30.0:
+        # a strongly expansive (or multi-valued) step map: neither a finite-difference Jacobian nor a round trip at solver tolerance says anything
+        rec.bump("hard_steps_map_too_expansive_to_judge")
+        return rec.out()
+    # (a) symmetric scheme: the step of -dT from the end point returns
+    dT2, y2 = any_step(y1, -dT)
+    if dT2 is not None and dT2 == -dT:
+        rec.bump("hard_reverse_probes")
+        err = float(np.max(np.abs(y2 - y)))
+        unit = 1e3 * tol_eff * (1 + float(np.max(np.abs(y1)))) * (1 + mmax)
+        rec.worst("hard_reverse_error_over_unit", err / unit)
+        if err > unit:
+            rec.violate("time_reversibility", "accepted_long_step_then_minus_step_does_not_return", feats, err=err, unit=unit, dT=dT)
+    # (b) the Jacobian of the map preserves J
+    rec.bump("hard_jtest_probes")
+    dfc = _jdefect(Mx.astype(np.longdouble), J.astype(np.longdouble))
+    thr = 3e-6 * (1 + mmax) ** 2 + 1e2 * tol_eff / delta * (1 + mmax)
+    rec.worst("hard_jtest_defect_over_threshold", dfc / thr)
+    if dfc > thr:
+        rec.violate("symplectic_form", "jacobian_of_an_accepted_long_step_does_not_preserve_J", feats, defect=dfc, threshold=thr, dT=dT, jac_max=mmax)
     return rec.out()
 
 
